@@ -17,7 +17,7 @@ for d in sorted(os.listdir(out)):
     shutil.copy(os.path.join(p, 'patch.diff'), dst)
     shutil.copy(os.path.join(p, 'demo.rs'), dst)
     rep = json.load(open(os.path.join(p, 'meta.json')))
-    meta = {'breaks_property': d, 'round': 4,
+    meta = {'breaks_property': d, 'round': int(sys.argv[4]) if len(sys.argv) > 4 else 4,
             'source': 'fresh sub-agent given only the property texts of its group and a scratch worktree (nothing from /verif)',
             'agent_report': rep,
             'confirmed_by_me': {'where': "the agent's scratch worktree of /repo HEAD, reset before and after (removed afterwards)",
